@@ -42,6 +42,43 @@ def gen_labels(rng):
     return ",".join(kv) if kv else "-"
 
 
+# ---- arbitrary strings for labels.Parse (the lexer / parser model of Lbl.v against the real library)
+ATOMS = ["a", "b", "zone", "in", "notin", "x-y", "k8s.io/a", "A_b.c", "5", "-3", "007", "9223372036854775808", "a/b/c", "-a", "a-", "", "Z" * 64,
+         "example.com/x", "Example.com/x", "/x", "x/", "a..b/c", "in/in", "notin/in", "1e3", "\x00", "\x00", "\t", "\n", "\r", "exists", "!a"]
+SYMS = ["=", "==", "!=", "!", "(", ")", ",", ">", "<", " ", "  ", ",", ",", "(", ")", " in ", " notin ", " in (", " notin (", "===", "!==", "=!", ",,", ",,,", "()", "(,)"]
+
+
+def gen_text(rng):
+    """mostly well-formed selector texts, with a share of token soup"""
+    r = rng.random()
+    if r < 0.55:
+        parts = []
+        for _ in range(rng.choice([1, 1, 2, 3, 5])):
+            k = rng.choice(ATOMS[:10] + ["example.com/x", "in/in"])
+            f = rng.random()
+            if f < 0.12:
+                parts.append(k)
+            elif f < 0.22:
+                parts.append("!" + k)
+            elif f < 0.62:
+                n = rng.choice([0, 1, 1, 2, 3, 4, 5])
+                vs = [rng.choice(["", "", "a", "b", "in", "notin", "x-y", "5", "A_b.c"]) for _ in range(n)]
+                sep = rng.choice([",", ",", ", ", " ,"])
+                parts.append("%s%s%s(%s)" % (k, rng.choice([" ", "  ", "\t"]), rng.choice(["in", "notin"]) + rng.choice([" ", "", "  "]), sep.join(vs)))
+            elif f < 0.8:
+                parts.append(k + rng.choice(["=", "==", "!=", " = ", "== "]) + rng.choice(["a", "", "in", "5", "x-y", "-a"]))
+            else:
+                parts.append(k + rng.choice([">", "<", " > ", "< "]) + rng.choice(["5", "-3", "007", "a", "", "9223372036854775808", "1e3"]))
+        return rng.choice([",", ",", ",", ",", " , ", ",,"]).join(parts) + rng.choice([""] * 12 + [",", " ", "\x00", ")"])
+    n = rng.randint(0, 9)
+    return "".join(rng.choice(ATOMS if rng.random() < 0.5 else SYMS) for _ in range(n))
+
+
+def hx(s):
+    b = s.encode("latin-1")
+    return b.hex() if b else "-"
+
+
 def run(res, tier, seed):
     vlib.standard_proof_step(res, "C17")
     if not vlib.build_executors(res, "C17"):
@@ -55,9 +92,19 @@ def run(res, tier, seed):
         lines.append("selkey " + s)
         for ls in rng.sample(labelsets, 12):
             lines.append("match %s %s" % (s, ls))
+    nsel_lines = len(lines)
+    texts = sorted({gen_text(rng) for _ in range(3000 if tier == "quick" else 40000)})
+    for t in texts:
+        lines.append("parse " + hx(t))
+        if rng.random() < 0.3:
+            lines.append("mkey %s %s" % (hx(t), rng.choice(labelsets)))
     cases = [("sel%d" % i, lines[i:i + 2600]) for i in range(0, len(lines), 2600)]
     mism, impl, st = corr.run_both("sel", cases, "C17", annotate=True)
-    res.obligation("correspondence: real nodeSelectorKey+matchCIDRLabels (through print/parse of the key) = match_reqs on the selector's own requirements, %d (selector, labels) pairs" % (len(lines) - len(sels)), not mism)
+    res.obligation("correspondence: real nodeSelectorKey = the model's selector_key (NewRequirement, Requirement.String, one parse) byte for byte on %d selectors; "
+                   "real matchCIDRLabels (through print/parse of the key) = match_reqs on the selector's own requirements, %d (selector, labels) pairs" % (len(sels), nsel_lines - len(sels)),
+                   not [m for m in mism if m["op"].split()[0] in ("selkey", "match")])
+    res.obligation("correspondence: labels.Parse = the model's lexer and parser (Lbl.parse) on %d texts (requirements, operators as parsed, value sets, errors), "
+                   "and matchCIDRLabels on arbitrary keys = match_key" % len(texts), not [m for m in mism if m["op"].split()[0] in ("parse", "mkey")])
     # same key => same meaning (monitor on the implementation's answers)
     flat_ops = [l for _, ls in cases for l in ls]
     flat_obs = [l for b in impl for l in b[1:]]
@@ -67,7 +114,7 @@ def run(res, tier, seed):
         f = op.split()
         if f[0] == "selkey":
             key_of[f[1]] = ob
-        else:
+        elif f[0] == "match":
             res_of.setdefault(f[1], {})[f[2]] = ob
     confl = []
     for s, k in key_of.items():
@@ -85,15 +132,23 @@ def run(res, tier, seed):
     res.coverage.update({
         "evaluations": len(lines), "distinct_nontrivial": len(set(lines)),
         "rule": "single-term selectors of 1..5 requirements over the six operators with keys that look like operators ('in', 'notin', 'exists'), prefixed keys, "
-                "numeric / empty / duplicated values, repeated requirements; each against 12 of 40 label sets; non-trivial = distinct line",
+                "numeric / empty / duplicated values, repeated requirements; each against 12 of 40 label sets; selector texts for labels.Parse: well-formed "
+                "requirement lists over all nine operators with empty values, keywords as keys and values, varying white space, and token soup with NUL bytes, "
+                "over-long and malformed names; non-trivial = distinct line",
         "samples": [lines[1], lines[len(lines) // 2], lines[-1]],
         "distribution": {"selectors": len(sels), "label_sets": len(labelsets), "matched": matched, "not_matched": sum(1 for l in flat_obs if l.startswith("match 0")),
-                         "key_failed": sum(1 for l in flat_obs if l == "key fail"), "keys_shared_by_several_selectors": sum(1 for v in by_key.values() if len(v) > 1)},
+                         "key_failed": sum(1 for l in flat_obs if l == "key fail"), "texts": len(texts),
+                         "texts_parsed": sum(1 for l in flat_obs if l.startswith("parse ok")), "texts_rejected": sum(1 for l in flat_obs if l == "parse fail"),
+                         "requirements_parsed_by_operator": {o: sum(l.count(":" + o + ":") for l in flat_obs if l.startswith("parse ok")) for o in
+                                                             ("In", "NotIn", "Eq", "DEq", "Ne", "Exists", "DoesNotExist", "Gt", "Lt")},
+                         "arbitrary_keys_matched": sum(1 for l in flat_obs if l.startswith("mkey") and l != "mkey err"), "keys_shared_by_several_selectors": sum(1 for v in by_key.values() if len(v) > 1)},
         "timing": st, "traces_validated_against_impl": len(lines),
     })
     for m in mism[:5]:
         res.violation({"property": "C17", "kind": "impl-violation",
-                       "theorem_or_correspondence": "hypothesis RT of C17_partial_* (print/parse round trip) / requirement semantics: model vs real matchCIDRLabels",
+                       "theorem_or_correspondence": ("correspondence of Lbl.v (printer, lexer, parser, selector_key: what C17_print_parse_round_trip is about) with the real labels package / nodeSelectorKey"
+                                                     if m["op"].split()[0] in ("parse", "mkey", "selkey") else
+                                                     "real nodeSelectorKey + matchCIDRLabels (through print/parse of the key) vs match_reqs on the selector's own requirements"),
                        "case": [m["op"]], "impl_obs": m["impl"], "model_obs": m["model"]})
     for a, b, ls in confl[:3]:
         res.violation({"property": "C17", "kind": "impl-violation", "theorem_or_correspondence": "same key, different meaning",
